@@ -5,7 +5,7 @@
    model clock never passes start + budget. Wall-clock time, the scheduler and the kernel are outside the model. *)
 From Coq Require Import List NArith ZArith Bool Lia.
 Import ListNotations.
-Require Import Codec Client ClientTime Session SessionProofs Config ConstantsAgree Constants.
+Require Import Codec Cipher SCipher Rijndael Client ClientTime ClientTerm Session SessionProofs Config ConstantsAgree Constants.
 Local Open Scope Z_scope.
 
 Theorem C10_budget : forall c fuel s w ms s' w' r,
@@ -13,6 +13,40 @@ Theorem C10_budget : forall c fuel s w ms s' w' r,
   clock message renv w <= clock message renv w' <=
   clock message renv w + budget message (eff_to (s_conn_to c)) (eff_to (s_send_to c)) (eff_to (s_recv_to c)) renv s w.
 Proof. exact SessionProofs.C10_budget. Qed.
+
+(* the same for EVERY transport/peer whatsoever: any environment state machine (its state type E, its reactions to dial,
+   write, read, close and its clock are arbitrary), not only the scripted peers the check can run *)
+Section AnyEnvironment.
+  Variable c : scfg.
+  Variable E : Type.
+  Variable m : envsm E.
+  Let ks := key_schedule (key_pad (s_key c)).
+  Notation any_send_multiple := (send_multiple message (c_encode (s_crc c)) c_decode_step (s_enc ks) (s_dec ks) iv0 c_valid
+       (c_auth_req (s_user c) (s_pass c)) c_auth_ok (eff_to (s_conn_to c)) (eff_to (s_send_to c)) (eff_to (s_recv_to c))
+       (32 * N.to_nat (eff_rbuf (s_rbuf c)))%nat E m).
+
+  Theorem C10_budget_any : forall fuel s w ms s' w' r,
+    any_send_multiple fuel s w ms = (s', w', r) ->
+    clock message E w <= clock message E w' <=
+    clock message E w + budget message (eff_to (s_conn_to c)) (eff_to (s_send_to c)) (eff_to (s_recv_to c)) E s w.
+  Proof.
+    apply ClientTime.C10_budget. repeat split; apply eff_to_pos; exact c.
+  Qed.
+
+  (* no spinning: if every Read takes at least delta > 0 of model time (waiting plus handling), the receive loop runs at most
+     receive-timeout / delta + 1 times whatever the peer sends - with that much fuel a call never ends in the model's
+     out-of-fuel value: it returns. (Without such a delta the model, like the code, can be fed empty reads for ever within
+     zero model time; net.Conn does not do that.) *)
+  Theorem C10_returns : forall delta fuel, 0 < delta -> (forall e n, delta <= snd (on_read E m e n)) ->
+    eff_to (s_recv_to c) < delta * Z.of_nat fuel ->
+    forall s w ms s' w' r, any_send_multiple fuel s w ms = (s', w', r) -> r <> Err (list message) ERunning.
+  Proof.
+    intros delta fuel Hd Hs Hf s w ms s' w' r H.
+    apply (ClientTerm.C10_returns message (c_encode (s_crc c)) c_decode_step (s_enc ks) (s_dec ks) iv0 c_valid
+             (c_auth_req (s_user c) (s_pass c)) c_auth_ok (eff_to (s_conn_to c)) (eff_to (s_send_to c)) (eff_to (s_recv_to c))
+             (32 * N.to_nat (eff_rbuf (s_rbuf c)))%nat E m delta Hd Hs fuel ltac:(pose proof (eff_to_pos c (s_recv_to c)); lia) Hf s w ms s' w' r H).
+  Qed.
+End AnyEnvironment.
 
 (* the budget is a sum of configured timeouts only: connect (if not connected) + authentication exchange (if not
    authenticated) + the user exchange *)
@@ -34,4 +68,4 @@ Theorem C10_constants :
   default_receive_buffer_blocks = 1%N /\ default_use_checksum = 1%N /\ RSCP_FRAME_MAX_BLOCK_SIZE = max_blocks.
 Proof. exact ConstantsAgree.config_constants. Qed.
 
-Print Assumptions C10_budget. Print Assumptions C10_budget_bound. Print Assumptions C10_defaults. Print Assumptions C10_constants.
+Print Assumptions C10_budget. Print Assumptions C10_budget_any. Print Assumptions C10_returns. Print Assumptions C10_budget_bound. Print Assumptions C10_defaults. Print Assumptions C10_constants.
